@@ -512,6 +512,34 @@ def split_divmod(tree):
     return n
 
 
+def _truth_context(e):
+    """in a test, `bool(x) is False` is `not x` and `bool(x) is True` is
+    `x` (through and / or / not)"""
+    if isinstance(e, ast.BoolOp):
+        e.values = [_truth_context(v) for v in e.values]
+        return e
+    if isinstance(e, ast.UnaryOp) and isinstance(e.op, ast.Not):
+        e.operand = _truth_context(e.operand)
+        return e
+    if isinstance(e, ast.Compare) and len(e.ops) == 1 and isinstance(
+            e.ops[0], (ast.Is, ast.Eq, ast.IsNot, ast.NotEq)) and isinstance(
+                e.left, ast.Call) and isinstance(e.left.func, ast.Name) \
+            and e.left.func.id == "bool" and len(e.left.args) == 1 and \
+            not e.left.keywords and isinstance(
+                e.comparators[0], ast.Constant) and isinstance(
+                    e.comparators[0].value, bool):
+        want = e.comparators[0].value
+        if isinstance(e.ops[0], (ast.IsNot, ast.NotEq)):
+            want = not want
+        x = e.left.args[0]
+        return x if want else ast.copy_location(
+            ast.UnaryOp(op=ast.Not(), operand=x), e)
+    if isinstance(e, ast.Call) and isinstance(e.func, ast.Name) and \
+            e.func.id == "bool" and len(e.args) == 1 and not e.keywords:
+        return e.args[0]        # bool(x) as a test is x
+    return e
+
+
 def canon_shapes(tree):
     """`if not c: A else: B` -> `if c: B else: A`;  `n = n + 3` -> `n += 3`
     (plain local, integer literal).  One spelling per meaning, so that the
@@ -519,6 +547,9 @@ def canon_shapes(tree):
     n_if = n_aug = 0
     from .inline import literal_attr_calls
     literal_attr_calls(tree)
+    for node in ast.walk(tree):
+        if isinstance(node, (ast.If, ast.While, ast.IfExp)):
+            node.test = _truth_context(node.test)
     for node in ast.walk(tree):
         # `with A, B: body` is `with A: with B: body`; the nested spelling is
         # the canonical one (every `with` has exactly one item)
@@ -1024,9 +1055,14 @@ def _own_continue(loop):
     return False
 
 
-def _simple_subject(e):
+def _simple_subject(e, truth=False):
     if isinstance(e, (ast.Name, ast.Constant)):
         return True
+    if truth and isinstance(e, ast.Call) and isinstance(
+            e.func, ast.Name) and e.func.id == "bool" and len(
+                e.args) == 1 and not e.keywords and isinstance(
+                    e.args[0], ast.Name):
+        return True     # the truth of a local: asked again at no cost
     if isinstance(e, ast.Attribute):
         return _simple_subject(e.value)
     return False
@@ -1094,7 +1130,7 @@ def lower_match(tree):
         if isinstance(subj, ast.Tuple):
             elems = []
             for e in subj.elts:
-                if _simple_subject(e):
+                if _simple_subject(e, truth=True):
                     elems.append(e)
                 else:
                     counter[0] += 1
@@ -1105,7 +1141,7 @@ def lower_match(tree):
             whole = None
         else:
             elems = None
-            if _simple_subject(subj):
+            if _simple_subject(subj, truth=True):
                 whole = subj
             else:
                 counter[0] += 1
